@@ -440,6 +440,7 @@ class Engine:
                 t = place_type(fr.fn, pl)
                 return v.kid('*', t), ()
             if isinstance(v, Opaque): return Opaque(v.name + '.*'), ()
+            if isinstance(v, StrV): return st.alloc(v), ()         # `&str` / `&[u8]` are fat values: the referent is the same view
             if hasattr(v, 'deref_target'): return v.deref_target(s, st)
             raise EngineError(f'deref of {v!r} in {fr.fn.name} {pl}')
         if k == 'field':
